@@ -75,6 +75,9 @@ Definition shared (nh : nat) (s : cow) (h : nat) : bool :=
 Definition detach (nh : nat) (s : cow) (h : nat) : cow :=
   if shared nh s h then {| c_next := S (c_next s); c_heap := upd (c_heap s) (c_next s) (c_heap s (c_hd s h)); c_hd := upd (c_hd s) h (c_next s) |}
   else s.
+(* resize(count[, value]) returns before _detach() when the size is already right (VectorT.hpp:127-128) *)
+Definition is_noop (m : mut) (l : list Z) : bool :=
+  match m with MResize n _ => Nat.eqb n (List.length l) | _ => false end.
 Definition cow_step (nh : nat) (s : cow) (o : vop) : cow :=
   match o with
   | VCopy h1 h2 => if Nat.ltb h1 nh && Nat.ltb h2 nh then
@@ -83,7 +86,7 @@ Definition cow_step (nh : nat) (s : cow) (o : vop) : cow :=
                      {| c_next := c_next s1; c_heap := c_heap s1; c_hd := upd (c_hd s1) h1 (c_hd s1 h2) |} else s
   | VSwap h1 h2 => if Nat.ltb h1 nh && Nat.ltb h2 nh
                    then {| c_next := c_next s; c_heap := c_heap s; c_hd := upd (upd (c_hd s) h1 (c_hd s h2)) h2 (c_hd s h1) |} else s
-  | VMut d h m => if Nat.ltb h nh then
+  | VMut d h m => if Nat.ltb h nh && negb (is_noop m (c_heap s (c_hd s h))) then
                     let s1 := if d then detach nh s h else s in
                     {| c_next := c_next s1; c_heap := upd (c_heap s1) (c_hd s1 h) (apply_mut m (c_heap s1 (c_hd s1 h))); c_hd := c_hd s1 |}
                   else s
